@@ -374,6 +374,14 @@ Definition pipeline_defaults (funcs : list mfunc) : env :=
   fold_left (fun d f => fold_left (fun d' kv => if mem_str (fst kv) (map fst (fbound f)) || mem_str (fst kv) outs then d'
                                                 else dict_set d' (fst kv) (snd kv)) (fdefaults f) d) funcs [].
 
+(* _normalize_storage_keys: a 1-tuple key names the same output as the bare name (dict comprehension) *)
+Definition normalize_storage (st : storage_cfg) : storage_cfg :=
+  match st with
+  | StUni n => StUni n
+  | StDict d => StDict (fold_left (fun acc kv => odict_set acc (match fst kv with KTup [x] => KName x | k => k end) (snd kv))
+                                  d [])
+  end.
+
 Definition create_run_info (root version : str) (funcs : list mfunc) (inputs : env) (user : list (str * ishape))
   (func_int : list str) (storage : storage_cfg) (shapes : shapes_t) : result run_info :=
   do sm <- create_shapes funcs inputs shapes;
@@ -384,7 +392,7 @@ Definition create_run_info (root version : str) (funcs : list mfunc) (inputs : e
         ri_shape_masks := map (fun kv => (fst kv, snd (snd kv))) sm;
         ri_run_folder := root;
         ri_mapspecs := flat_map (fun f => match fspec f with Some ms => [print ms] | None => [] end) funcs;
-        ri_storage := storage;
+        ri_storage := normalize_storage storage;
         ri_version := version |}.
 
 (* the outputs of a finished run, from the final state of Model/MapRun.v *)
